@@ -10,7 +10,10 @@ K  the Lean model (lean/ZepidVerif/Model/Ice.lean, SurvGF.lean) is run by the na
 D  the property's own predicates on the real code: estimate == stratified nonparametric g-formula from raw counts
    (op ice_npg, the spec of theorem ice_eq_npgformula, exact rationals); n identical plan rows == one plan row;
    one time point == TimeFixedGFormula; marginal curve == product-limit from counts (op sgf_pl); each person's
-   cumulative incidence non-decreasing and within [0,1].
+   cumulative incidence non-decreasing and within [0,1]; under EVERY plan (custom conditions included) and with or
+   without weights= every person's curve == product-limit curve of the arm the plan assigns from (weighted) counts
+   (sgf_closed_form, exact rationals) and one prediction per complete person-period; plans assigning the same arms
+   give the same curves (theorem plan_same_assignment).
 H  the reference fits reproduce cell means (saturated designs) / solve their score equations.
 """
 import itertools
@@ -24,17 +27,23 @@ from common import rq, unrq, enc_list, dec_list
 
 REQUIRED = ['ice_eq_npgformula', 'plan_rowwise_eq_single', 'ice_rowwise_eq_npgformula', 'npg_textbook_form',
             'plan_shape', 'ice_single_t_eq_timefixed',
-            'survival_product_limit', 'cuminc_monotone_bounded',
+            'survival_product_limit', 'cuminc_monotone_bounded', 'plan_same_assignment', 'custom_plan_named',
             'survgf_fit_generated', 'survgf_fit_generated_custom', 'ice_step_generated']
 RULE = ('wide data: K in 1..3 time points, covariate arity 2 (3 for K<=2 in some sets), every history cell seeded so '
         'that the saturated designs have full rank, survival-type outcomes (missing after the first event; optionally '
-        'treatments/covariates missing there too), four index styles; every static plan in {0,1}^K given as one row and '
+        'treatments/covariates missing there too), four index styles, four column layouts (chronological, most recent '
+        'visit first, blocks in descending order, shuffled: the stored order of the columns is not the order of the '
+        '`exposures` / `outcomes` arguments); every static plan in {0,1}^K given as one row and '
         'as n rows (ndarray / list of lists); saturated models (full interactions of treatment and covariate history) '
         'for D, plus main-effects models, per-individual varying plans and censored / non-monotone outcome patterns for '
         'K only; malformed plans and outcome tables.  long data: person-period records with events, censoring, '
         'shuffled rows, non-contiguous ids, records with a missing value; hazard models saturated in arm x time '
         '(product-limit clause) and unsaturated with continuous covariates (monotone/bounded clause); plans '
-        'all/none/natural/custom.  distinct = (data hash, models, plan, plan form); non-trivial = at least one '
+        'all/none/natural and custom conditions drawn from a family (baseline covariate, observed treatment and its '
+        'negation, time-varying "first k intervals", continuous threshold, nobody / everybody, compounds), judged '
+        'against the product-limit curve of the arm the plan assigns to each record; the weights= option with '
+        'frequency / fractional / per-person weights incl. weights of exactly zero on final and non-final records '
+        '(product-limit from weighted counts).  distinct = (data hash, models, plan, plan form); non-trivial = at least one '
         'individual with an event before the last time point and both treatment values at every time')
 ASSUMPTIONS = ['statsmodels GLM (Binomial, logit) on a design that contains the indicator of every cell returns the '
                'cell means of the (possibly fractional) outcome: measured on every reference fit, |fitted - cell mean| '
@@ -63,9 +72,35 @@ def main_model(k, nlev):
     return 'A%d + %s' % (k, 'L%d' % k if nlev == 2 else 'C(L%d)' % k) + (' + A%d' % (k - 1) if k > 1 else '')
 
 
-def gen_wide(rng, K, nlev, n_random, style, seed_rows=1):
+WIDE_LAYOUTS = ('chrono', 'recent_first', 'blocks_desc', 'shuffled')
+
+
+def lay_out(df, K, layout, rng):
+    """the order in which the columns of a wide table are stored is the caller's business: the estimator is told which
+    column is which time point through `exposures=` / `outcomes=` and the model strings, never through the position of
+    a column in the frame.  'chrono' = L1 A1 Y1 L2 A2 Y2 ... (the bundled data), 'recent_first' = most recent visit
+    first, 'blocks_desc' = all outcomes, all treatments, all covariates, each block most recent first, 'shuffled'."""
+    named = [c for c in df.columns if c[1:].isdigit()]
+    other = [c for c in df.columns if c not in named]
+    if layout == 'chrono':
+        return df
+    if layout == 'recent_first':
+        cols = [c + str(k) for k in range(K, 0, -1) for c in 'LAY']
+    elif layout == 'blocks_desc':
+        cols = [c + str(k) for c in 'YAL' for k in range(K, 0, -1)]
+    else:
+        cols = [named[i] for i in rng.permutation(len(named))]
+        exp = [c for c in cols if c[0] == 'A']
+        if K > 1 and exp == sorted(exp):       # make sure the stored order of the treatments is not the chronological one
+            i, j = cols.index('A1'), cols.index('A%d' % K)
+            cols[i], cols[j] = cols[j], cols[i]
+    k = int(rng.integers(0, len(other) + 1)) if other else 0
+    return df[other[:k] + cols + other[k:]]
+
+
+def gen_wide(rng, K, nlev, n_random, style, seed_rows=1, layout=None):
     """style: 'surv' (missing exactly after the first event), 'surv_na' (treatments / covariates missing there too),
-    'censor' (survival-type plus drop-out), 'holes' (outcomes missing at random)"""
+    'censor' (survival-type plus drop-out), 'holes' (outcomes missing at random); layout: see lay_out (drawn when None)"""
     hist = []
     # skeleton: every (treatment history, covariate history) at risk at every time
     for combo in itertools.product(itertools.product([0, 1], repeat=K), itertools.product(range(nlev), repeat=K)):
@@ -131,6 +166,9 @@ def gen_wide(rng, K, nlev, n_random, style, seed_rows=1):
         z = rng.normal(size=n)
         z[rng.uniform(size=n) < 0.3] = np.nan
         df['Z_unused'] = z
+    if layout is None:
+        layout = WIDE_LAYOUTS[int(rng.integers(0, len(WIDE_LAYOUTS)))]
+    df = lay_out(df, K, layout, rng)
     ix = int(rng.integers(0, 5))
     if ix == 4 and style == 'surv_na':
         ix = 2      # statsmodels' predict cannot re-insert rows with missing predictors under repeated labels
@@ -142,7 +180,7 @@ def gen_wide(rng, K, nlev, n_random, style, seed_rows=1):
         df.index = ['r%04d' % i for i in rng.permutation(n)]
     elif ix == 4:
         df.index = np.arange(n) // 2
-    return df, ('range', 'shifted', 'permuted', 'string', 'repeated')[ix]
+    return df, ('range', 'shifted', 'permuted', 'string', 'repeated')[ix] + '/' + layout
 
 
 def wide_args(df, K):
@@ -278,11 +316,14 @@ def frame_record(df):
             return v
         return None if pd.isna(v) else float(v)
     return {'index': [str(i) for i in df.index], 'dtypes': {c: str(df[c].dtype) for c in df.columns},
+            'column_order': [str(c) for c in df.columns],      # the stored order of the columns is part of the input
             'columns': {c: [val(v) for v in df[c]] for c in df.columns}}
 
 
 def frame_from(rec):
     df = pd.DataFrame({c: [np.nan if v is None else v for v in vals] for c, vals in rec['columns'].items()})
+    if rec.get('column_order'):
+        df = df[rec['column_order']]
     for c, dt in rec.get('dtypes', {}).items():
         if dt.startswith(('int', 'uint')) and not df[c].isna().any():
             df[c] = df[c].astype(dt)
@@ -318,7 +359,8 @@ def check_wide(chk, drv, rng, df, ixstyle, K, nlev, style, models, saturated, pl
                      sample={'K': K, 'n': n, 'nlev': nlev, 'style': style, 'index': ixstyle, 'models': models,
                              'plan': list(map(int, g)), 'form': form, 'impl': res[form]} if chk.evals % 29 == 0 else None)
             chk.count('ice_K%d_%s_%s' % (K, style, 'sat' if saturated else 'unsat'))
-            chk.count('index_' + ixstyle)
+            chk.count('index_' + ixstyle.split('/')[0])
+            chk.count('layout_' + ixstyle.split('/')[-1])
             chk.count('form_' + form)
         # ---- K: model with reference fits vs implementation (single-row form of the model; the per-row form
         #         of the model is compared against the per-row form of the implementation below)
@@ -592,16 +634,153 @@ def long_args(df, cond, h1=None, h0=None):
     return d
 
 
-def check_long(chk, drv, rng, df, model, saturated, tag):
-    """all four treatments on one estimator object, in random order"""
+# ---- plans of SurvivalGFormula.fit and the product-limit closed form for any of them (with or without weights)
+def sgf_custom_family(rng, df):
+    """custom treatment strings over `g` (the documented spelling): conditions on a baseline covariate, on the observed
+    treatment (incl. its negation, and the observed treatment itself = the natural course), on time (treated during the
+    first k intervals only), on a continuous covariate, conditions nobody / everybody meets, and compounds of those"""
+    T = int(df['t'].max())
+    k = int(rng.integers(1, T + 1))
+    thr = float(np.round(rng.normal(0, 0.5), 2))
+    return ["g['B']==1", "g['A']==0", "g['A']==1", "g['t']<=%d" % k, "g['W']>%s" % thr, "g['A']>=0", "g['A']>1",
+            "(g['B']==1) & (g['A']==0)", "(g['B']==0) | (g['t']>%d)" % k, "((g['W']<=%s) & (g['B']==1))" % thr]
+
+
+def plan_assignment(df, treat):
+    """arm (0/1) the plan assigns to every record of df, in df's row order (records with a missing exposure get -1 under
+    the natural course; they are dropped by the estimator)"""
+    n = len(df)
+    if treat == 'all':
+        return np.ones(n, dtype=int)
+    if treat == 'none':
+        return np.zeros(n, dtype=int)
+    if treat == 'natural':
+        return np.where(df['A'].isna(), -1, df['A'].fillna(0)).astype(int)
+    return np.asarray(eval(treat, {'g': df, 'np': np, 'pd': pd}), dtype=bool).astype(int)
+
+
+def sgf_closed_form(df, treat, wcol=None):
+    """Discrete-time product-limit cumulative incidence under a plan, from (weighted) counts on the complete records:
+    hazard of arm a in interval u  h(a,u) = sum w*Y / sum w over the complete records with A = a at time u; the curve of
+    a person at time t = 1 - prod over that person's records u <= t of (1 - h(arm the plan assigns to the record, u));
+    the marginal curve at t = (weighted) mean of the curves of the records present at t.  Exact rationals.
+    Returns None when a hazard that is needed is 0/0 (no weight in the arm x time cell), otherwise
+    ({(id, t): value}, {t: value or None})."""
+    cc = df.loc[~df.isna().any(axis=1)]
+    asg = plan_assignment(df, treat)[(~df.isna().any(axis=1)).values]
+    w = [Fraction(float(v)) for v in cc[wcol].values] if wcol else [Fraction(1)] * len(cc)
+    num, den = {}, {}
+    for a, t, y, wi in zip(cc['A'].values, cc['t'].values, cc['Y'].values, w):
+        k = (int(a), int(t))
+        num[k] = num.get(k, Fraction(0)) + wi * int(y)
+        den[k] = den.get(k, Fraction(0)) + wi
+    recs = sorted(zip(cc['id'].values, [int(t) for t in cc['t'].values], asg, w), key=lambda r: (r[0], r[1]))
+    ind, mnum, mden = {}, {}, {}
+    cur, surv = None, Fraction(1)
+    for i, t, a, wi in recs:
+        if cur is None or i != cur:
+            cur, surv = i, Fraction(1)
+        if not den.get((int(a), t)):
+            return None
+        surv *= 1 - num[(int(a), t)] / den[(int(a), t)]
+        if (i, t) in ind:
+            return None             # two records of one person in one interval: not person-period data
+        ind[(i, t)] = 1 - surv
+        mnum[t] = mnum.get(t, Fraction(0)) + wi * (1 - surv)
+        mden[t] = mden.get(t, Fraction(0)) + wi
+    return ind, {t: (mnum[t] / mden[t] if mden[t] else None) for t in sorted(mnum)}
+
+
+def sgf_compare_closed_form(df, treat, wcol, pdf, marg, slack):
+    """predicted_df / marginal_outcome of the implementation against sgf_closed_form.  Returns (applicable, ok, first
+    difference)"""
+    cf = sgf_closed_form(df, treat, wcol)
+    if cf is None:
+        return False, True, None
+    ind, mg = cf
+    got = {}
+    for i, t, v in zip(pdf['id'].values, pdf['t'].values, pdf['Y'].values):
+        got.setdefault((i, int(t)), []).append(float(v))
+    missing = [k for k in ind if k not in got]
+    extra = [k for k in got if k not in ind or len(got[k]) != 1]
+    if missing or extra:
+        return True, False, {'person_periods_without_prediction': [[str(k[0]), k[1]] for k in missing[:5]],
+                             'n_without_prediction': len(missing), 'unexpected_predictions': len(extra)}
+    for k, w in ind.items():
+        if not abs(got[k][0] - float(w)) <= slack:
+            return True, False, {'id': str(k[0]), 'time': k[1], 'impl': got[k][0], 'product_limit_under_plan': float(w)}
+    if [int(x) for x in marg.index] != list(mg):
+        return True, False, {'marginal_times': [int(x) for x in marg.index], 'expected_times': list(mg)}
+    for t, gv in zip(mg, marg.values):
+        if mg[t] is not None and not abs(float(gv) - float(mg[t])) <= slack:
+            return True, False, {'time': t, 'marginal_impl': float(gv), 'product_limit_under_plan': float(mg[t])}
+    return True, True, None
+
+
+def sat_hazard_dev(cc, wcol=None):
+    """H: the harness's own saturated reference fit (arm x time, `freq_weights` when weights are given) returns the
+    (weighted) cell proportions; returns the largest deviation (inf when a cell is empty / the fit fails)"""
+    try:
+        import warnings
+        import statsmodels.api as sm
+        import statsmodels.formula.api as smf
+        with warnings.catch_warnings():
+            warnings.simplefilter('ignore')
+            kw = {'freq_weights': cc[wcol]} if wcol else {}
+            fm = smf.glm('Y ~ C(t)*A', cc, family=sm.families.family.Binomial(), **kw).fit()
+        wv = cc[wcol].astype(float) if wcol else pd.Series(1.0, index=cc.index)
+        t_ = pd.DataFrame({'mu': fm.fittedvalues, 'wy': cc['Y'].astype(float) * wv, 'w': wv})
+        grp = t_.groupby([cc['A'].astype(float), cc['t'].astype(float)])
+        tot = grp['w'].transform('sum')
+        if len(grp) != 2 * cc['t'].nunique() or not bool((tot > 0).all()):
+            return float('inf')
+        mean = grp['wy'].transform('sum') / tot
+        dev = max(float((grp['mu'].transform('max') - mean).abs().max()), float((grp['mu'].transform('min') - mean).abs().max()))
+        return dev if dev == dev else float('inf')
+    except Exception:
+        return float('inf')
+
+
+WEIGHT_KINDS = ('frequency', 'frequency_with_zeros', 'fractional', 'fractional_with_zeros', 'per_person')
+
+
+def add_long_weights(rng, df, kind):
+    """a weight column `w` for person-period data: whole-number frequency weights / non-integer sampling weights, either
+    strictly positive or with some weights of exactly zero (on final and on non-final records of a person: such a record
+    contributes nothing to the hazards and to the mean at its time, the person is still followed through it), or one
+    weight per person"""
+    df = df.copy()
+    n = len(df)
+    if kind.startswith('frequency'):
+        w = rng.integers(1, 5, size=n).astype(float)
+    elif kind.startswith('fractional'):
+        w = np.round(rng.uniform(0.3, 2.5, size=n), 3)
+    else:
+        per = {i: float(np.round(rng.uniform(0.3, 3.0), 2)) for i in df['id'].unique()}
+        w = np.array([per[i] for i in df['id'].values])
+    if kind.endswith('zeros'):
+        z = rng.uniform(size=n) < 0.08
+        last = (df.groupby('id')['t'].transform('max') == df['t']).values
+        nl = np.flatnonzero(~last)
+        if len(nl):
+            z[nl[int(rng.integers(0, len(nl)))]] = True          # at least one non-final record
+        w = np.where(z, 0.0, w)
+    df['w'] = w
+    if kind == 'frequency' and rng.uniform() < 0.5:
+        df['w'] = df['w'].astype(int)
+    return df
+
+
+def check_long(chk, drv, rng, df, model, saturated, tag, wcol=None, ncustom=2):
+    """the three named treatments and custom treatments (drawn from sgf_custom_family) on one estimator object, in random
+    order; with `wcol` the estimator is given that weight column (D only: the Lean model is the unweighted estimator)"""
     from zepid.causal.gformula import SurvivalGFormula
     key = hash(df.to_csv())
     dfr = df.reset_index(drop=True)      # positional copy for the harness's own reference call
     cc = dfr.dropna()
-    cond = (df['B'] == 1).values
     # reference fit (harness's own call on the complete records, caller's row order)
     href = None
-    if drv is not None:
+    if drv is not None and wcol is None:
         try:
             fm = glm_binomial('Y ~ ' + model, cc)
             d1, d0 = cc.copy(), cc.copy()
@@ -634,13 +813,22 @@ def check_long(chk, drv, rng, df, model, saturated, tag):
                 chk.discard('reference hazard fit off its cell means / score equations (or empty arm x time cell)')
         except Exception as e:
             chk.discard('reference hazard fit raised %s' % type(e).__name__)
+    # H for the closed form under any plan: the (weighted) saturated reference fit returns the (weighted) cell proportions
+    sdev = None
+    if saturated:
+        sdev = sat_hazard_dev(cc, wcol)
+        chk.h_checked += 1
     sg = None
-    order = [('all', 'all'), ('none', 'none'), ('natural', 'natural'), ("g['B']==1", 'custom')]
-    order = [order[i] for i in rng.permutation(4)]
+    fam = sgf_custom_family(rng, df)
+    customs = ["g['B']==1"] + [fam[i] for i in rng.choice(np.arange(1, len(fam)), size=min(ncustom, len(fam) - 1), replace=False)]
+    order = [('all', 'all'), ('none', 'none'), ('natural', 'natural')] + [(c, 'custom') for c in customs]
+    order = [order[i] for i in rng.permutation(len(order))]
+    results = {}
     for treat, plan in order:
         try:
-            if sg is None:      # one estimator object, fitted for the four treatments in turn (documented usage)
-                sg = SurvivalGFormula(df, idvar='id', exposure='A', outcome='Y', time='t')
+            if sg is None:      # one estimator object, fitted for the treatments in turn (documented usage)
+                kw = {'weights': wcol} if wcol else {}
+                sg = SurvivalGFormula(df, idvar='id', exposure='A', outcome='Y', time='t', **kw)
                 sg.outcome_model(model=model, print_results=False)
             sg.fit(treatment=treat)
             pdf = sg.predicted_df[['id', 't', 'Y']].copy()
@@ -652,26 +840,53 @@ def check_long(chk, drv, rng, df, model, saturated, tag):
 
         def mk(extra=None):
             r = {'kind': 'sgf', 'model': model, 'treatment': treat, 'impl_status': st, 'frame': frame_record(df),
+                 'weights': wcol, 'saturated': bool(saturated),
                  'treatments_in_order_on_same_object': [o[0] for o in order]}
             r.update(extra or {})
             return r
-        chk.case(None, (key, model, treat) if nontriv else None,
+        chk.case(None, (key, model, treat, wcol) if nontriv else None,
                  sample={'people': int(df['id'].nunique()), 'records': len(df), 'dropped': len(df) - len(cc), 'model': model,
-                         'treatment': treat, 'marginal': [float(v) for v in marg.values] if st[0] == 'ok' else st}
+                         'treatment': treat, 'weights': wcol,
+                         'marginal': [float(v) for v in marg.values] if st[0] == 'ok' else st}
                  if chk.evals % 23 == 0 else None)
-        chk.count('sgf_%s_%s' % (tag, plan))
+        chk.count('sgf_%s_%s%s' % (tag, plan, '_weighted' if wcol else ''))
+        if plan == 'custom':
+            chk.count('sgf_custom_plan: ' + ''.join(ch for ch in treat if not (ch.isdigit() or ch in '.-')))
         if st[0] != 'ok':
             chk.d(False, 'SurvivalGFormula runs on valid person-period data', mk())
             continue
-        # ---- D: each person's cumulative incidence is non-decreasing in time and within [0,1]
+        asg = plan_assignment(dfr, treat)[cc.index.values]
+        cond = plan_assignment(dfr, treat) == 1
         s = pdf.sort_values(['id', 't'])
         v = s['Y'].values
+        results[treat] = (s, marg, asg)
+        # ---- D: each person's cumulative incidence is non-decreasing in time and within [0,1]
         same = s['id'].values[1:] == s['id'].values[:-1]
         mono = bool(np.all(v[1:][same] >= v[:-1][same]))
         inside = bool(np.all((v >= 0) & (v <= 1)))
         chk.d(mono and inside, 'individual cumulative incidence non-decreasing in time and within [0,1]',
               None if (mono and inside) else mk())
-        if drv is None:
+        # ---- D: every complete person-period of the input has a predicted cumulative incidence (and nothing else has)
+        have = sorted(zip([str(x) for x in s['id'].values], [int(x) for x in s['t'].values]))
+        want_keys = sorted(zip([str(x) for x in cc['id'].values], [int(x) for x in cc['t'].values]))
+        chk.d(have == want_keys, 'predicted_df holds one cumulative incidence for every complete person-period of the input',
+              None if have == want_keys else mk({'records_in': len(want_keys), 'records_predicted': len(have)}))
+        # ---- D: hazard saturated in arm x time, no covariates: every person's curve is the product-limit curve of the arm
+        # the plan assigns (from (weighted) counts), the marginal curve their (weighted) mean -- for EVERY plan
+        if saturated:
+            if not sdev <= H_TOL:
+                chk.count('pl_any_plan_hypotheses_not_met')
+            else:
+                slack = TOL + 2 * int(cc['t'].nunique()) * sdev
+                app, ok, bad = sgf_compare_closed_form(dfr, treat, wcol, pdf, marg, slack)
+                if not app:
+                    chk.count('pl_any_plan_hypotheses_not_met')
+                else:
+                    chk.count('pl_any_plan_compared_%s%s' % (plan, '_weighted' if wcol else ''))
+                    chk.d(ok, 'SurvivalGFormula (hazard saturated in arm x time%s): individual and marginal curves == '
+                              'product-limit cumulative incidence of the arm the plan assigns' % (', weights' if wcol else ''),
+                          None if ok else mk({'first_difference': bad, 'predicate': 'closed_form'}))
+        if drv is None or wcol is not None:
             continue
         # ---- K: model fed with the reference hazards vs predicted_df and marginal_outcome
         if href is not None:
@@ -722,7 +937,25 @@ def check_long(chk, drv, rng, df, model, saturated, tag):
             chk.count('pl_times_compared', sum(1 for w in pl if w is not None))
             chk.d(ok, 'SurvivalGFormula (hazard saturated in arm x time) == product-limit cumulative incidence',
                   None if ok else mk({'first_difference': bad}))
-
+    # ---- D (any hazard model): a custom plan that assigns every record the arm a named plan assigns gives that plan's
+    # curves (a condition everybody meets = 'all', nobody meets = 'none', the observed treatment itself = 'natural');
+    # two custom strings that assign the same arms give the same curves
+    names = [t for t, _ in order if t in results]
+    for i, ta in enumerate(names):
+        for tb in names[:i]:
+            (sa, ma, aa), (sb, mb, ab) = results[ta], results[tb]
+            if not np.array_equal(aa, ab) or (ta in ('all', 'none', 'natural') and tb in ('all', 'none', 'natural')):
+                continue
+            ok = len(sa) == len(sb) and list(ma.index) == list(mb.index) and \
+                bool(np.all(np.abs(sa['Y'].values - sb['Y'].values) <= 1e-12)) and \
+                bool(np.all(np.abs(ma.values - mb.values) <= 1e-12))
+            chk.count('sgf_same_assignment_pairs')
+            chk.d(ok, 'SurvivalGFormula: two plans that assign every record the same arm give the same curves '
+                      '(custom condition vs all / none / natural / another custom condition)',
+                  None if ok else {'kind': 'sgf', 'model': model, 'treatment': ta, 'same_assignment_as': tb,
+                                   'weights': wcol, 'saturated': bool(saturated), 'frame': frame_record(df),
+                                   'treatments_in_order_on_same_object': [o[0] for o in order],
+                                   'predicate': 'same_assignment'})
 
 
 # ---------------------------------------------------------------------------------------------- histories
@@ -905,7 +1138,8 @@ def ice_hist_case(frames, K, nlev, ops, i, r, **extra):
 
 
 SGF_MODELS = {'sat': 'C(t)*A', 'lin': 'A + W + B + t', 'quad': 'A*W + B + t + I(t**2)', 'ct': 'A + C(t) + W'}
-SGF_TREATS = ['all', 'none', 'natural', "g['B']==1", "g['A']==1", "g['A']==0"]
+SGF_TREATS = ['all', 'none', 'natural', "g['B']==1", "g['A']==1", "g['A']==0", "g['A']>1", "g['t']<=1", "g['W']>0",
+              "(g['B']==1) & (g['A']==0)"]
 
 
 def sgf_outputs(sg):
@@ -925,8 +1159,9 @@ def run_sgf_ops(frames, ops, upto=None):
         rec = {'status': 'ok'}
         try:
             if op['obj'] not in objs:
-                objs[op['obj']] = SurvivalGFormula(frames[op['obj']], 'id', 'A', 'Y', 't') if op['obj'] % 2 else \
-                    SurvivalGFormula(frames[op['obj']], idvar='id', exposure='A', outcome='Y', time='t')
+                kw = {'weights': 'w'} if 'w' in frames[op['obj']].columns else {}     # a frame with a column `w` is weighted
+                objs[op['obj']] = SurvivalGFormula(frames[op['obj']], 'id', 'A', 'Y', 't', **kw) if op['obj'] % 2 else \
+                    SurvivalGFormula(frames[op['obj']], idvar='id', exposure='A', outcome='Y', time='t', **kw)
             o = objs[op['obj']]
             if op['op'] == 'spec':
                 o.outcome_model(model=op['model'], print_results=False)
@@ -967,6 +1202,10 @@ def check_sgf_history(chk, drv, rng, length):
     frames = [gen_long(rng, int(rng.integers(40, 120)), T, censor=float(rng.choice([0.0, 0.15])), with_na=bool(j % 2),
                        shape=('free', 'divisible', 'divisible', 'balanced')[int(rng.integers(0, 4))])
               for j in range(nobj)]
+    if rng.uniform() < 0.5:       # one of the two data sets carries weights (zeros included half of the time)
+        j = int(rng.integers(0, nobj))
+        frames[j] = add_long_weights(rng, frames[j], WEIGHT_KINDS[int(rng.integers(0, len(WEIGHT_KINDS)))])
+        chk.count('sgf_history_weighted_frame')
     names = sorted(SGF_MODELS)
     ops, last = [], {}
     for j in range(nobj):
@@ -981,7 +1220,7 @@ def check_sgf_history(chk, drv, rng, length):
             ops.append({'op': 'spec', 'obj': j, 'name': nm, 'model': SGF_MODELS[nm]})
         ops.append({'op': 'fit', 'obj': j, 'treat': SGF_TREATS[int(rng.integers(0, len(SGF_TREATS)))]})
     res = run_sgf_ops(frames, ops)
-    cur, fresh, pls, hdevs = {}, {}, {}, {}
+    cur, fresh, pls, hdevs, sdevs = {}, {}, {}, {}, {}
 
     def case(i, **extra):
         c = {'kind': 'sgf_history', 'ops': ops[:i + 1], 'failing_op': i,
@@ -1028,8 +1267,30 @@ def check_sgf_history(chk, drv, rng, length):
         mono = bool(np.all(v[1:][same] >= v[:-1][same])) and bool(np.all((v >= 0) & (v <= 1)))
         chk.d(mono, 'individual cumulative incidence non-decreasing in time and within [0,1] (history)',
               None if mono else case(i))
+        # ---- closed form under any plan (with or without weights): every person's curve is the product-limit curve of
+        # the arm the plan assigns, the marginal curve their (weighted) mean
+        if spec['name'] == 'sat':
+            wcol = 'w' if 'w' in frames[j].columns else None
+            dfr = frames[j].reset_index(drop=True)
+            if j not in sdevs:
+                sdevs[j] = sat_hazard_dev(dfr.dropna(), wcol)
+                chk.h_checked += 1
+            app = sdevs[j] <= H_TOL
+            if app:
+                app, ok, bad = sgf_compare_closed_form(dfr, op['treat'], wcol,
+                                                       pd.DataFrame({'id': r['ids'], 't': r['ts'], 'Y': r['ci']}),
+                                                       pd.Series(r['mg'], index=r['mt']),
+                                                       TOL + 2 * len(r['mt']) * sdevs[j])
+            if not app:
+                chk.count('pl_any_plan_hypotheses_not_met_history')
+            else:
+                chk.count('pl_any_plan_compared_history%s' % ('_weighted' if wcol else ''))
+                chk.d(ok, 'hazard model saturated in arm x time specified last in a history: individual and marginal '
+                          'curves == product-limit cumulative incidence of the arm the plan assigns',
+                      None if ok else case(i, first_difference=bad, predicate='closed_form'))
         # ---- closed form: product-limit of the arm (all / none), arm-weighted product-limit (natural)
-        if spec['name'] == 'sat' and drv is not None and op['treat'] in ('all', 'none', 'natural', "g['A']==1"):
+        if spec['name'] == 'sat' and drv is not None and op['treat'] in ('all', 'none', 'natural', "g['A']==1") and \
+                'w' not in frames[j].columns:
             df = frames[j]
             if j not in pls:
                 cond = (df['B'] == 1).values
@@ -1087,7 +1348,8 @@ def run(chk, drv, rng, tier):
             style = ('surv', 'surv_na')[rep % 2]
             cells = (2 * nlev) ** K
             n_random = int(rng.integers(60, 200)) + (0 if quick else int(rng.integers(0, 400)))
-            df, ixs = gen_wide(rng, K, nlev, n_random, style, seed_rows=1 if cells > 40 else 2)
+            df, ixs = gen_wide(rng, K, nlev, n_random, style, seed_rows=1 if cells > 40 else 2,
+                               layout=WIDE_LAYOUTS[(rep + 1) % len(WIDE_LAYOUTS)])
             models = [sat_model(k, nlev) for k in range(1, K + 1)]
             plans = list(itertools.product([0, 1], repeat=K))
             if K == 3 and nlev == 3:
@@ -1122,8 +1384,16 @@ def run(chk, drv, rng, tier):
         chk.count('long_records_multiple_of_people_with_unequal_follow_up',
                   int(len(cc_) % cc_['id'].nunique() == 0 and cc_.groupby('id').size().nunique() > 1))
         check_long(chk, drv, rng, df, 'C(t)*A', True, 'saturated')
-        check_long(chk, drv, rng, df, ('A + W + B + t', 'A*W + B + t + I(t**2)', 'A + C(t) + W')[rep % 3], False,
-                   'unsaturated')
+        unsat = ('A + W + B + t', 'A*W + B + t + I(t**2)', 'A + C(t) + W')[rep % 3]
+        check_long(chk, drv, rng, df, unsat, False, 'unsaturated')
+        # the weights= option: frequency / sampling weights incl. weights of exactly zero (gate D; product-limit from
+        # weighted counts under every plan)
+        kind = WEIGHT_KINDS[rep % len(WEIGHT_KINDS)]
+        dfw = add_long_weights(rng, df, kind)
+        chk.count('long_weights_' + kind)
+        check_long(chk, drv, rng, dfw, 'C(t)*A', True, 'saturated', wcol='w')
+        if rep % 2 == 0 or not quick:
+            check_long(chk, drv, rng, dfw, unsat, False, 'unsaturated', wcol='w', ncustom=1)
     # ---- histories on reused objects, several data sets / objects interleaved in one process
     for rep in range(6 if quick else 60):
         K = 1 + rep % 3
@@ -1179,9 +1449,11 @@ def replay(rec):
         elif c.get('kind') == 'sgf':
             df = frame_from(c['frame'])
             from zepid.causal.gformula import SurvivalGFormula
+            wcol = c.get('weights')
+            kw = {'weights': wcol} if wcol else {}
             with common.quiet():
                 try:
-                    sg = SurvivalGFormula(df, idvar='id', exposure='A', outcome='Y', time='t')
+                    sg = SurvivalGFormula(df, idvar='id', exposure='A', outcome='Y', time='t', **kw)
                     sg.outcome_model(model=c['model'], print_results=False)
                     for t0 in c.get('treatments_in_order_on_same_object', []):
                         if t0 == c['treatment']:
@@ -1194,8 +1466,9 @@ def replay(rec):
                     print('impl raised', type(e).__name__, e)
                     bad += 1
             if marg is not None:
+                print('treatment:', c['treatment'], ' weights:', wcol)
                 print('marginal_outcome:', dict(zip([int(i) for i in marg.index], [float(v) for v in marg.values])))
-                if drv is not None and c['treatment'] in ('all', 'none'):
+                if drv is not None and c['treatment'] in ('all', 'none') and not wcol:
                     rep, _ = drv.ask('sgf_pl', arm=1 if c['treatment'] == 'all' else 0,
                                      **long_args(df, (df['B'] == 1).values))
                     print('product-limit from counts:', rep.get('times'), rep.get('pl'))
@@ -1208,6 +1481,32 @@ def replay(rec):
                 if not (np.all(v[1:][same] >= v[:-1][same]) and np.all((v >= 0) & (v <= 1))):
                     print('cumulative incidence not monotone / outside [0,1]')
                     bad += 1
+                cc = df.dropna()
+                have = sorted(zip([str(x) for x in s['id'].values], [int(x) for x in s['t'].values]))
+                want_keys = sorted(zip([str(x) for x in cc['id'].values], [int(x) for x in cc['t'].values]))
+                if have != want_keys:
+                    print('predicted_df has %d records, the input has %d complete person-periods' % (len(have), len(want_keys)))
+                    bad += 1
+                if c.get('saturated') or c['model'] == 'C(t)*A':
+                    app, ok, diff = sgf_compare_closed_form(df.reset_index(drop=True), c['treatment'], wcol,
+                                                            sg.predicted_df[['id', 't', 'Y']], marg, 1e-7)
+                    print('product-limit closed form under the plan (from %scounts): applicable=%s agrees=%s %s'
+                          % ('weighted ' if wcol else '', app, ok, diff or ''))
+                    if app and not ok:
+                        bad += 1
+                if c.get('same_assignment_as'):
+                    with common.quiet():
+                        s2 = SurvivalGFormula(df, idvar='id', exposure='A', outcome='Y', time='t', **kw)
+                        s2.outcome_model(model=c['model'], print_results=False)
+                        s2.fit(treatment=c['same_assignment_as'])
+                    r2 = s2.predicted_df.sort_values(['id', 't'])
+                    same_arms = np.array_equal(plan_assignment(df, c['treatment'])[(~df.isna().any(axis=1)).values],
+                                               plan_assignment(df, c['same_assignment_as'])[(~df.isna().any(axis=1)).values])
+                    dmax = float(np.abs(r2['Y'].values - v).max()) if len(r2) == len(v) else float('inf')
+                    print('plan %r assigns the same arms as %r: %s; largest difference of the individual curves: %g'
+                          % (c['treatment'], c['same_assignment_as'], same_arms, dmax))
+                    if same_arms and not dmax <= 1e-12:
+                        bad += 1
         elif c.get('kind') == 'ice_history':
             frames = [frame_from(fr) for fr in c['frames']]
             K, ops, i = c['K'], c['ops'], c['failing_op']
@@ -1246,6 +1545,16 @@ def replay(rec):
                 if f['status'] != 'ok' or r['mt'] != f['mt'] or not bool(np.all(np.abs(r['mg'] - f['mg']) <= 1e-12)) or \
                         not bool(np.all(np.abs(r['ci'] - f['ci']) <= 1e-12)):
                     bad += 1
+                if spec.get('name') == 'sat':
+                    fr_ = frames[ops[i]['obj']]
+                    wcol = 'w' if 'w' in fr_.columns else None
+                    app, ok, diff = sgf_compare_closed_form(fr_.reset_index(drop=True), ops[i]['treat'], wcol,
+                                                            pd.DataFrame({'id': r['ids'], 't': r['ts'], 'Y': r['ci']}),
+                                                            pd.Series(r['mg'], index=r['mt']), 1e-7)
+                    print('product-limit closed form under the plan (from %scounts): applicable=%s agrees=%s %s'
+                          % ('weighted ' if wcol else '', app, ok, diff or ''))
+                    if app and not ok:
+                        bad += 1
         elif c.get('kind') == 'single_t':
             df = frame_from(c['frame'])
             print('stored:', c.get('ice'), c.get('timefixed'))
